@@ -544,6 +544,57 @@ def r8(ctx, r):
     r.expect(not begins, oc, begins[0] if begins else None, "observer order", "observers are iterated in reverse registration order", okdesc="observers invoked in registration order")
 
 
+def r9(ctx, r):
+    """'nothing is delivered for it after the close': the Sync→Async flush of setReadMode runs on an application thread and
+    invokes the data callback with no lock held, one batch per loop iteration.  A close of that session processed by the I/O
+    thread in between must not let a later batch follow the close notification.  Two proofs are accepted: (P1) the close handler
+    waits the flush out (a condition-variable wait on `flushing` before the global close callback); (P2) a flag the close handler
+    raises under syncMutex before its first callback is tested by the flusher in the critical section that takes each batch."""
+    from ..finite import dominating_facts
+    fb = ctx.fb()
+    la = c03._la(ctx)
+    IMPL, SRB = c03.IMPL, c03.SRB
+    f = fb.func("iora::network::Transport::setReadMode")
+    oc = c03.lambdas(ctx)["onClose"]
+    deliveries = [e for (e, t) in common.fn_invocations(f)]
+    if not deliveries:
+        raise AnalysisBroken("setReadMode: flush delivery not found")
+    glob = [e for (e, t) in common.fn_invocations(oc) if "closeCb" in show(t) or "onCloseCb" in show(t)]
+    if not glob:
+        raise AnalysisBroken("onClose handler: global close callback invocation not found")
+    # P1
+    p1 = False
+    for e in oc.stmts():
+        n = e.node
+        if n.get("k") == "mcall" and n.get("callee", "").startswith("std::condition_variable") and last(n["callee"]) in common.CV_WAIT:
+            args = [a for a in n.get("args", []) if not a.get("def")]
+            P = common._resolve_pred(fb, oc, args[-1]) if args else None
+            reads = {x["n"] for x in P.nodes.values() if x.get("k") == "member"} if P is not None else set()
+            # the wait is conditional (`if (buffer exists && flushing) wait`): it must lie on the way to the global callback, never after it
+            if SRB + "::flushing" in reads and c03.SYNC in la.mutexes(oc, e) and all(search(oc, e, lambda x, g=g: x is g, eh=False) is not None and search(oc, g, lambda x, e=e: x is e, eh=False) is None for g in glob):
+                p1 = True
+    # P2
+    raised = set()
+    for fld in fb.record(SRB)["fields"]:
+        name = SRB + "::" + fld["n"]
+        for (e, n, k) in common.field_writes(oc, name):
+            if c03.SYNC in la.mutexes(oc, e) and all(elem_dominates(oc, e, g) for g in glob):
+                raised.add(name)
+    p2 = bool(raised)
+    for d in deliveries:
+        tested = set()
+        for (c, t) in dominating_facts(f, d):
+            tested |= {x["n"] for x in walk(c) if x.get("k") == "member"}
+        if not (tested & raised):
+            p2 = False
+    r.instance()
+    r.expect(p1 or p2, f, deliveries[0], "flush delivers after the close",
+             "the flush loop of setReadMode hands a batch to the data callback without any coordination with the close handler: while the flusher is inside the callback for one batch the I/O thread can buffer more "
+             "bytes and then run the whole close fan-out for the session, after which the flusher's next iteration delivers those bytes — event order data(A), close, data(B). The close handler neither waits for "
+             "`flushing` to clear before its first callback nor raises a flag (under syncMutex) that the flusher tests when it takes a batch",
+             okdesc="close handler waits the flush out / flusher re-validates a closing flag")
+
+
 def run(ctx, ck):
     ck.run_rule("C02-R1", "close notifications are fired only from the closed set of sites", "A3 who-may-call", lambda r: r1(ctx, r))
     ck.run_rule("C02-R2", "close is idempotent: !closed → closed=true → erase → notify", "A5 + A2", lambda r: r2(ctx, r))
@@ -554,4 +605,5 @@ def run(ctx, ck):
     ck.run_rule("C02-R5", "announce after insertion and before data", "A2", lambda r: r5(ctx, r))
     ck.run_rule("C02-R6", "session ids are only ever incremented", "A10", lambda r: r6(ctx, r))
     ck.run_rule("C02-R7", "session gauge: every insert bumps, every decrement is on the closed-guarded path", "A2", lambda r: r7(ctx, r))
+    ck.run_rule("C02-R9", "an application-thread flush cannot deliver data after the session's close notification", "protocol rule: wait-out or flag/test agreement between flusher and close handler", lambda r: r9(ctx, r))
     ck.run_rule("C02-R8", "transport close fan-out order and lock discipline", "A2 + A1", lambda r: r8(ctx, r))
